@@ -35,6 +35,10 @@ CHECKS = {
             "Bounded: <= 4 numbers from <= 3 generators in 1..5, multiplicity <= 3; universes <= 5, <= 5 subsets.", "z3; plain brute-force validity checker for returned generating sets", "5/C15"),
     "C16": (TV, "certified optimum of the captured phase-1 LP == optimum of the direct z3 definition (non-negative conserving flow minimising scaled L1 change); phase-2 LP: z3 shows every answer stays within the (1+eps) budget; returned graph evaluated",
             "Bounded: DAGs <= 4 (5) nodes, digraphs <= 3 inner nodes, weights 0..4.", "z3; spec encoding in c16.spec", "5/C16"),
+    "C10": (TV, "z3 on the captured LP: every optimal answer contains each constraint to the requested (edge/length) fraction in one layer; LP optimum / feasibility == spec restricted to constraint-satisfying solutions; frame cases (ignored, zero-scaled, additional starts/ends) as optimum equalities",
+            "Bounded as C07; coverage in {1, 0.5}, length coverage 0.6, constraint families contiguous / non-contiguous / duplicate / overlapping.", "z3; spec encodings", "5/C10"),
+    "C11": (TV, "node-mode LP vs LP of the explicit expansion built by the harness: equal certified optimum / equi-feasibility (z3); CrossHair on NodeExpandedDiGraph kernels with symbolic node sequences",
+            "Bounded: DAGs <= 4 (5) nodes, digraphs <= 3 inner nodes; kernel sequences <= 4 over 3 names.", "z3; CrossHair; reference expansion written in the harness", "5/C11"),
     "C13": (MC, "CrossHair symbolic execution of the real search loops / abstract solve() over a symbolic outcome sequence (status per solver invocation, clock increments), plus status injection at the highspy boundary into the real classes",
             "Bounded: <= 5 solver invocations, 5-status alphabet; 'Confirmed over all paths' per harness with reachability twin.", "CrossHair/z3; k-model stubs validated by injected runs on the real classes", "5/C13"),
     "C14": (MC, "CrossHair symbolic execution of the real get_solution_walks/_reconstruct_eulerian_walk with a symbolic multiplicity per edge of enumerated universe graphs",
